@@ -53,7 +53,7 @@ func (c *Ctx) constTerm(pkg, name string) *Term {
 
 func runC16(c *Ctx) {
 	defer checkStoreKeyed(c, "C16.R6", storeRow{meth: "CreateDeviceAuthSession", table: "DeviceAuths", op: "create", key: 2, key2: 3, also: []string{"DeviceCodesRequestIDs"}}, storeRow{meth: "GetDeviceCodeSession", table: "DeviceAuths", op: "get", key: 2})
-	defer checkConfigGetters(c, "C16.R7", "GetDeviceAndUserCodeLifespan")
+	defer checkConfigGetters(c, "C16.R7", "GetDeviceAndUserCodeLifespan", "GetTokenEntropy", "GetDeviceAuthTokenPollingInterval")
 	defer c16Store(c)
 	const role = "device-validate"
 	fns := c.deviceValidateFns()
